@@ -244,14 +244,21 @@ class Interp:
         self.calls.append(name or fn.name)
         try:
             fr = Frame(self, module, env, owner, self_obj)
+            is_gen = any(isinstance(x, (ast.Yield, ast.YieldFrom)) for x in ast.walk(fn))
+            if is_gen:
+                fr.yields = []
             try:
                 fr.exec_block(body_wo_doc(fn))
             except _Return as r:
+                if is_gen:
+                    return ListV(fr.yields)
                 return r.value
             except _RaisedExc as r:
                 if self.depth > 1:
                     raise
                 return r.raised
+            if is_gen:
+                return ListV(fr.yields)
             return None
         finally:
             self.depth -= 1
@@ -400,6 +407,9 @@ class Interp:
                 return res if op == 'is' else not res
             # two symbolic/structured values: identity is not decidable in general
             raise Unsupported('identity test on symbolic values')
+        if op in ('==', '!=') and (isinstance(a, (DictV, Obj)) or isinstance(b, (DictV, Obj))):
+            res = self.struct_eq(a, b)
+            return res if op == '==' else not res
         if op in ('==', '!='):
             if isinstance(a, (str, bool)) or isinstance(b, (str, bool)) or a is None or b is None:
                 if isinstance(a, (Rat, ListV, Elem, Obj)) or isinstance(b, (Rat, ListV, Elem, Obj)):
@@ -437,6 +447,26 @@ class Interp:
                 if r is not None:
                     return r
         raise Unsupported('undecidable comparison %s' % op, node)
+
+    def struct_eq(self, a, b):
+        if isinstance(a, DictV) and isinstance(b, DictV):
+            return a.d.keys() == b.d.keys() and all(self.struct_eq(a.d[k], b.d[k]) for k in a.d)
+        if isinstance(a, Obj) or isinstance(b, Obj):
+            if a is b:
+                return True
+            if isinstance(a, Obj) and isinstance(b, Obj) and a.ci is not None and b.ci is not None:
+                # _pmuttBase.__eq__ compares to_dict(): undecided in general
+                raise Unsupported('equality of two model objects')
+            return False        # a model object never equals a dict / None / str
+        if isinstance(a, ListV) and isinstance(b, ListV):
+            return len(a) == len(b) and all(self.struct_eq(x, y) for x, y in zip(a.items, b.items))
+        if isinstance(a, Rat) and isinstance(b, Rat):
+            if a.eq(b):
+                return True
+            raise Unsupported('equality of symbolic numbers inside containers')
+        if type(a) is not type(b):
+            return False
+        return a == b
 
     def truth(self, v, node=None):
         if isinstance(v, bool):
@@ -518,6 +548,17 @@ class Frame:
             self.exec_try(st)
             return
         if isinstance(st, ast.Assert):
+            return
+        if isinstance(st, ast.ImportFrom) and st.module and not st.level:
+            for a in st.names:
+                base = I.repo.modules.get(st.module)
+                full = st.module + '.' + a.name
+                if full in I.repo.modules:
+                    self.env[a.asname or a.name] = I.repo.modules[full]
+                elif base is not None:
+                    r = I.repo.lookup(base, a.name)
+                    if r is not None:
+                        self.env[a.asname or a.name] = self.entity(r, st)
             return
         if isinstance(st, (ast.Import, ast.ImportFrom)):
             return
@@ -611,6 +652,10 @@ class Frame:
             return list(it.d.keys())
         if isinstance(it, str):
             return list(it)
+        if isinstance(it, Obj) and it.ci is not None and self.I.repo.find_method(it.ci, '__iter__', missing_ok=True):
+            r = self.I.call_method(it, '__iter__', [], {})
+            if isinstance(r, ListV):
+                return list(r.items)
         raise Unsupported('iteration over %r' % (it,), node, self.module.relpath)
 
     def assign(self, target, v):
@@ -635,6 +680,12 @@ class Frame:
         if isinstance(target, ast.Subscript):
             base = self.ev(target.value)
             idx = self.ev(target.slice)
+            if isinstance(base, ListV) and isinstance(idx, ListV):
+                cur = base
+                for ix in idx.items[:-1]:
+                    cur = cur.items[self.index(ix, len(cur), target)]
+                cur.items[self.index(idx.items[-1], len(cur), target)] = v
+                return
             if isinstance(base, ListV):
                 i = self.index(idx, len(base), target)
                 if self.in_vec_loop:
@@ -758,6 +809,20 @@ class Frame:
             return DictV(d)
         if isinstance(n, ast.ListComp):
             return self.listcomp(n)
+        if isinstance(n, ast.GeneratorExp):
+            return self.listcomp(n)
+        if isinstance(n, ast.DictComp):
+            if len(n.generators) != 1:
+                raise Unsupported('comprehension form', n, self.module.relpath)
+            g = n.generators[0]
+            out = DictV()
+            for item in self.iter_items(self.ev(g.iter), n):
+                sub = Frame(self.I, self.module, dict(self.env), self.owner, self.self_obj)
+                sub.assign(g.target, item)
+                if all(self.I.truth(sub.ev(c_), c_) for c_ in g.ifs):
+                    k = sub.ev(n.key)
+                    out.d[k if isinstance(k, (str, int)) and not isinstance(k, bool) else repr(k)] = sub.ev(n.value)
+            return out
         if isinstance(n, ast.Subscript):
             return self.subscript(n)
         if isinstance(n, ast.Attribute):
@@ -768,6 +833,11 @@ class Frame:
             return '<fstring>'
         if isinstance(n, ast.Lambda):
             return FuncRef(self.module, n, None, self.owner)
+        if isinstance(n, ast.Yield):
+            if getattr(self, 'yields', None) is None:
+                raise Unsupported('yield outside a generator frame', n, self.module.relpath)
+            self.yields.append(self.ev(n.value) if n.value is not None else None)
+            return None
         raise Unsupported('expression %s' % type(n).__name__, n, self.module.relpath)
 
     def listcomp(self, n):
@@ -809,6 +879,13 @@ class Frame:
                 return r
             raise Unsupported('slice of %r' % (base,), n, self.module.relpath)
         idx = self.ev(n.slice)
+        if isinstance(base, ListV) and isinstance(idx, ListV):
+            cur = base
+            for ix in idx.items:
+                if not isinstance(cur, ListV):
+                    raise _RaisedExc(Raised('IndexError', n))
+                cur = cur.items[self.index(ix, len(cur), n)]
+            return cur
         if isinstance(base, ListV):
             return base.items[self.index(idx, len(base), n)]
         if isinstance(base, DictV):
@@ -818,6 +895,9 @@ class Frame:
             raise _RaisedExc(Raised('KeyError', n))
         if isinstance(base, TableRef):
             return base.lookup(self, idx, n)
+        if isinstance(base, Obj) and base.ci is not None and \
+                self.I.repo.find_method(base.ci, '__getitem__', missing_ok=True):
+            return self.I.call_method(base, '__getitem__', [idx], {})
         if isinstance(base, Elem):
             raise Unsupported('indexing into a vector of unknown length', n, self.module.relpath)
         if isinstance(base, Rat) and isinstance(idx, Rat):
@@ -865,6 +945,10 @@ class Frame:
 
     def obj_attr(self, obj, attr, node=None):
         I = self.I
+        if attr == '__class__' and obj.ci is not None:
+            return obj.ci
+        if attr == '__dict__':
+            return DictV(dict(obj.attrs))
         if attr in obj.missing:
             raise _RaisedExc(Raised('AttributeError', node))
         if attr in obj.attrs:
@@ -881,6 +965,8 @@ class Frame:
             return BoundOpaque(obj, attr)
         if attr == '__class__':
             return obj.ci
+        if attr == '__dict__':
+            return DictV(dict(obj.attrs))
         if obj.closed:
             raise _RaisedExc(Raised('AttributeError', node))
         # lazily created parameter atom
@@ -943,11 +1029,16 @@ class Frame:
 
     def dotted(self, f):
         """resolved dotted name of a call target for native dispatch."""
-        if isinstance(f, ast.Attribute) and isinstance(f.value, ast.Name) \
-                and f.value.id not in self.env:
-            al = self.module.aliases.get(f.value.id)
-            if al and al[0] == 'module':
-                return al[1] + '.' + f.attr
+        if isinstance(f, ast.Attribute):
+            chain = [f.attr]
+            v = f.value
+            while isinstance(v, ast.Attribute):
+                chain.append(v.attr)
+                v = v.value
+            if isinstance(v, ast.Name) and v.id not in self.env:
+                al = self.module.aliases.get(v.id)
+                if al and al[0] == 'module':
+                    return al[1] + '.' + '.'.join(reversed(chain))
         if isinstance(f, ast.Name) and f.id not in self.env:
             al = self.module.aliases.get(f.id)
             if al and al[0] == 'object':
@@ -1065,8 +1156,9 @@ class TableRef:
 
 
 class ZipV:
-    def __init__(self, seqs, enumerate_start=None):
+    def __init__(self, seqs, enumerate_start=None, frame=None):
         self.seqs = seqs
+        self.frame = frame
         self.enumerate_start = enumerate_start
         self.vector = any(isinstance(s, Elem) for s in seqs)
 
@@ -1088,6 +1180,10 @@ class ZipV:
                 lists.append(s.items)
             elif isinstance(s, ZipV):
                 lists.append(s.items())
+            elif isinstance(s, DictV):
+                lists.append(list(s.d.keys()))
+            elif isinstance(s, Obj) and self.frame is not None:
+                lists.append(self.frame.iter_items(s))
             else:
                 raise Unsupported('zip over %r' % (s,))
         n = min(len(x) for x in lists) if lists else 0
@@ -1117,7 +1213,7 @@ _OPS = {ast.Add: '+', ast.Sub: '-', ast.Mult: '*', ast.Div: '/', ast.Pow: '**'}
 _CMP = {ast.Eq: '==', ast.NotEq: '!=', ast.Lt: '<', ast.LtE: '<=', ast.Gt: '>', ast.GtE: '>=',
         ast.Is: 'is', ast.IsNot: 'is not', ast.In: 'in', ast.NotIn: 'not in'}
 
-PY_BUILTINS = {'getattr', 'hasattr', 'float', 'int', 'len', 'min', 'max', 'enumerate', 'zip', 'range', 'type',
+PY_BUILTINS = {'sorted', 'set', 'getattr', 'hasattr', 'float', 'int', 'len', 'min', 'max', 'enumerate', 'zip', 'range', 'type',
                'isinstance', 'all', 'any', 'list', 'tuple', 'abs', 'sum', 'str', 'print',
                'sorted', 'dict', 'bool'}
 
@@ -1174,14 +1270,16 @@ def builtin_call(I, fr, name, args, kwargs, n):
             return C(len(v.d))
         if isinstance(v, Elem):
             return I.D.sym('len<vec>')
+        if isinstance(v, Obj) and v.ci is not None and I.repo.find_method(v.ci, '__len__', missing_ok=True):
+            return I.call_method(v, '__len__', [], {})
         if isinstance(v, Rat):
             raise _RaisedExc(Raised('TypeError', n))
         raise Unsupported('len of %r' % (v,), n)
     if name == 'enumerate':
         start = _as_int(kwargs.get('start', args[1] if len(args) > 1 else C(0)), n)
-        return ZipV([args[0]], enumerate_start=start)
+        return ZipV([args[0]], enumerate_start=start, frame=fr)
     if name == 'zip':
-        return ZipV(args)
+        return ZipV(args, frame=fr)
     if name == 'range':
         vals = [_as_int(a, n) for a in args]
         return ListV([C(i) for i in range(*vals)])
@@ -1243,9 +1341,30 @@ def builtin_call(I, fr, name, args, kwargs, n):
         raise Unsupported('abs of symbolic value', n)
     if name == 'sum':
         return I.np_sum(args[0])
+    if name in ('any', 'all'):
+        v = args[0]
+        if isinstance(v, ListV):
+            vals = [I.truth(x, n) for x in v.items]
+            return any(vals) if name == 'any' else all(vals)
+        raise Unsupported('%s() of %r' % (name, v), n)
+    if name == 'set':
+        v = args[0] if args else ListV([])
+        if isinstance(v, ListV) and all(isinstance(x, str) for x in v.items):
+            return ListV(sorted(set(v.items)))
+        raise Unsupported('set() of non-string items', n)
+    if name == 'sorted':
+        v = args[0]
+        items = v.items if isinstance(v, ListV) else (list(v.d.keys()) if isinstance(v, DictV) else None)
+        if items is not None and all(isinstance(x, str) for x in items) and not kwargs:
+            return ListV(sorted(items))
+        raise Unsupported('sorted() of non-string items', n)
     if name == 'print':
         return None
     if name == 'str':
+        if args and isinstance(args[0], ClassInfo):
+            return "<class '%s'>" % args[0].qual
+        if args and isinstance(args[0], str):
+            return args[0]
         return '<str>'
     if name == 'dict':
         d = DictV(kwargs)
@@ -1380,6 +1499,16 @@ def _np_like(val):
 def _np_zeros(val):
     def h(I, fr, args, kwargs, n):
         shape = _arg(args, kwargs, 0, 'shape')
+        if isinstance(shape, ListV) and len(shape) == 2:
+            r_, c_ = _as_int(shape.items[0], n), _as_int(shape.items[1], n)
+            rows = []
+            for _ in range(r_):
+                row = ListV([C(val)] * c_)
+                row.is_array = True
+                rows.append(row)
+            m_ = ListV(rows)
+            m_.is_array = True
+            return m_
         if isinstance(shape, Rat) and shape.is_const():
             r = ListV([C(val)] * _as_int(shape, n))
             r.is_array = True
@@ -1489,6 +1618,16 @@ def _np_anyall(which):
             return v
         raise Unsupported('np.%s operand' % which, n)
     return h
+
+
+def _np_isclose(I, fr, args, kwargs, n):
+    a, b = args[0], args[1]
+    if isinstance(a, Rat) and isinstance(b, Rat):
+        if a.eq(b):
+            return True
+        if (a - b).is_const():
+            return False
+    raise Unsupported('np.isclose of symbolic values', n)
 
 
 def _np_mean(I, fr, args, kwargs, n):
@@ -1812,6 +1951,7 @@ NATIVE = {
     'numpy.argmax': _np_argmax,
     'numpy.roots': _np_roots,
     'numpy.mean': _np_mean,
+    'numpy.isclose': _np_isclose,
     'numpy.any': _np_anyall('any'),
     'numpy.all': _np_anyall('all'),
     'numpy.linspace': _np_linspace,
